@@ -816,6 +816,16 @@ class IntervalEval:
         if base in ("filter_map", "map_while") and isinstance(a0, AIter):
             r = self.apply(args[1], [a0.elem], n)
             return AIter(r.some if isinstance(r, AOpt) and r.some is not None else ATop(""), a0.maxlen, 0)
+        if base == "fold" and isinstance(a0, AIter) and len(args) == 3:
+            # accumulator fixpoint: acc = init join f(acc, elem), widened after a few rounds (the obligations of the closure body are
+            # raised on the way, so an unbounded `acc + x` still has to fit its type)
+            acc = args[1]
+            for round_ in range(8):
+                nxt = join(acc, self.apply(args[2], [acc, a0.elem], n))
+                if repr(nxt) == repr(acc):
+                    break
+                acc = widen(acc, nxt) if round_ >= 3 else nxt
+            return acc
         if base == "sum" and isinstance(a0, AIter) and isinstance(a0.elem, AInt):
             if a0.maxlen is None:
                 return top_of(ty)
